@@ -155,7 +155,12 @@ sexp sexp_env_cell_define (sexp ctx, sexp env, sexp key,
 #endif
   for (ls=sexp_env_bindings(env); sexp_pairp(ls); ls=sexp_env_next_cell(ls))
     if (sexp_car(ls) == key) {
-      sexp_cdr(ls) = value;
+      /* the placeholder for a redefinition must not clobber the old */
+      /* value of a variable, which the new value may refer to:      */
+      /* (define x (+ x 1)) is equivalent to (set! x (+ x 1))        */
+      if (value != SEXP_VOID || sexp_syntacticp(sexp_cdr(ls))
+          || sexp_cdr(ls) == SEXP_UNDEF)
+        sexp_cdr(ls) = value;
       return ls;
     }
   sexp_gc_preserve2(ctx, cell, ls);
